@@ -455,7 +455,7 @@ class Session:
         if self._skip(oid):
             return True
         oid = self._oid(oid)
-        s = self._solver(E, pre, 60)
+        s = self._solver(E, pre)          # same budget as the obligations: the first sat answer ends the query
         s.add(X.zbool(cond))
         r, dt = self._check(s)
         if r == z3.sat:
